@@ -111,6 +111,8 @@ class Translator:
                 return self.tr(t[2])
             return self.mk_atom(t)
         if k == "call":
+            if t[3] and any(kk == "@" for kk, _ in t[3]):
+                t = ("call", t[1], t[2], tuple((kk, v) for kk, v in t[3] if kk != "@"))
             f = t[1]
             if isinstance(f, str):
                 if f in UNARY_FUNCS and len(t[2]) == 1 and not t[3]:
